@@ -61,6 +61,7 @@ package protobuf
 //@ func ToWalletAddrs
 //@   noframe
 //@   ensures result1 == nil ==> forall i int :: 0 <= i && i < len(result0) ==> result0[i] != nil && addrMapNonNil(result0[i])
+//@   ensures result1 == nil ==> len(result0) == len(protoAddrs)
 //@   loop 1
 //@     modifies addrs[*]
 //@     invariant fresh(arr(addrs)) && off(addrs) == 0 && len(addrs) == len(protoAddrs) && forall k int :: 0 <= k && k < $i ==> addrs[k] != nil && addrMapNonNil(addrs[k])
@@ -101,7 +102,13 @@ package protobuf
 
 //@ func ToParams
 //@   noframe
+//@   callsite Resolve : protoParams != nil && unmarshalledFrom(def) == bytesId(protoParams.App)
 //@   ensures result1 == nil ==> result0 != nil
+//@   ensures result1 == nil && protoParams != nil ==> result0.ChallengeDuration == protoParams.ChallengeDuration && result0.LedgerChannel == protoParams.LedgerChannel && result0.VirtualChannel == protoParams.VirtualChannel
+//@   ensures result1 == nil && protoParams != nil ==> result0.Nonce != nil && val(result0.Nonce) == bigOf(protoParams.Nonce)
+//@   ensures result1 == nil && protoParams != nil ==> len(result0.Parts) == len(protoParams.Parts)
+//@   ensures result1 == nil && protoParams != nil ==> (len(protoParams.Aux) == 256 ==> result0.Aux == auxBytes(protoParams.Aux))
+//@   ensures result1 == nil && protoParams != nil ==> (len(protoParams.App) == 0 ==> isNoApp(result0.App))
 
 // Framing (C16): the bytes handed to the protobuf unmarshaller are exactly the frame announced by the length prefix -
 // the next len(b) stream bytes after the two length bytes - however the reader chunked them.
@@ -203,9 +210,19 @@ package protobuf
 
 // Signature lists of signed states. The conversion of the parameters is not part of this lemma (a thin trusted frame: it builds
 // new values and does not touch the signature lists).
-//@ func FromParams
+// Parameters. The participants' address maps are converted by map-ranging loops that are not under functional contracts
+// (FromWalletAddrs: thin trusted frame; the key of an entry is the subject of verifPBWalletAddrKey); everything else is.
+//@ func FromWalletAddrs
 //@   trusted
 //@   noframe
+//@   ensures err == nil ==> len(protoAddrs) == len(addrs)
+//@ pred fromParams(p *Params, x *channel.Params) = p != nil && bigOf(p.Nonce) == val(x.Nonce) && p.ChallengeDuration == x.ChallengeDuration && p.LedgerChannel == x.LedgerChannel &&
+//@   p.VirtualChannel == x.VirtualChannel && len(p.Parts) == len(x.Parts) && len(p.Aux) == 256 && auxBytes(p.Aux) == x.Aux && (isNoApp(x.App) ==> len(p.App) == 0) &&
+//@   (!isNoApp(x.App) ==> len(p.App) == marshalLen(appDef(x.App)) && bytesId(p.App) == marshalOf(appDef(x.App)))
+//@ func FromParams
+//@   noframe
+//@   requires params != nil && params.Nonce != nil && val(params.Nonce) >= 0 && params.App != nil
+//@   ensures err == nil ==> protoParams != nil && fresh(protoParams) && fromParams(protoParams, params)
 //@ pred fromState(p *State, x *channel.State) = p != nil && len(p.Id) == 32 && idBytes(p.Id) == x.ID && p.Version == x.Version && p.IsFinal == x.IsFinal &&
 //@   fromAlloc(p.Allocation, x.Allocation) && (isNoApp(x.App) ==> len(p.App) == 0) &&
 //@   (!isNoApp(x.App) ==> len(p.App) == marshalLen(appDef(x.App)) && bytesId(p.App) == marshalOf(appDef(x.App)) && bytesId(p.Data) == marshalOf(x.Data))
@@ -267,3 +284,9 @@ package protobuf
 //@   requires (forall i int :: 0 <= i && i < len(x.Backends) ==> 0 <= x.Backends[i] && x.Backends[i] <= 4294967295) && (!isNoApp(x.App) ==> marshalLen(appDef(x.App)) > 0)
 //@   modifies *
 //@   ensures fromErr == nil && toErr == nil ==> y != nil && pbStateEq(y, x)
+
+//@ func verifPBParams
+//@   requires x != nil && x.Nonce != nil && val(x.Nonce) >= 0 && x.App != nil && (!isNoApp(x.App) ==> marshalLen(appDef(x.App)) > 0)
+//@   modifies *
+//@   ensures fromErr == nil && toErr == nil ==> y != nil && y.ChallengeDuration == x.ChallengeDuration && y.LedgerChannel == x.LedgerChannel && y.VirtualChannel == x.VirtualChannel &&
+//@     y.Nonce != nil && val(y.Nonce) == val(x.Nonce) && len(y.Parts) == len(x.Parts) && y.Aux == x.Aux && (isNoApp(x.App) ==> isNoApp(y.App))
